@@ -42,6 +42,7 @@ const (
 	BOtherRequire
 	BPanicEmpty
 	BHelperPanic
+	BTwoHelpers
 	NumBehaviours
 )
 
@@ -53,12 +54,12 @@ var BehaviourNames = []string{"pass", "Fail", "FailNow", "Error", "Errorf", "Fat
 	"panic(error)", "panic(string)", "panic(int)", "panic(struct)", "nil-map-write", "index-out-of-range", "nil-deref",
 	"panic(error-with-permissive-Is)", "panic(nil)", "panic(error-named-FailNow)", "panic([]int)", "panic(slice-typed error)", "panic(map)",
 	"Error(nil)", "Fatal(nil)", "FailNow-on-the-setup-handle", "require-on-the-setup-handle",
-	"panic(\"\")", "panic-in-helper-goroutine-guarded-by-CheckResults"}
+	"panic(\"\")", "panic-in-helper-goroutine-guarded-by-CheckResults", "two-guarded-helpers-sharing-one-done-channel"}
 
 // Stops reports whether the behaviour ends the function at that point.
 func Stops(kind int) bool {
 	switch kind {
-	case BPass, BFail, BError, BErrorf, BAssert, BHelperPanic:
+	case BPass, BFail, BError, BErrorf, BAssert, BHelperPanic, BTwoHelpers:
 		return false
 	}
 	return true
@@ -155,6 +156,20 @@ func Behave(t *f1testing.T, kind int) {
 			panic("planned panic in a helper goroutine")
 		}()
 		<-done
+	case BTwoHelpers:
+		// fan-out: two guarded helpers report on one channel, one receive per helper; one of them panics
+		done := make(chan struct{})
+		go func() {
+			defer f1testing.CheckResults(t, done)
+			var m map[string]int
+			m["x"] = 1
+		}()
+		go func() {
+			defer f1testing.CheckResults(t, done)
+			panic(errors.New("planned panic in the second helper"))
+		}()
+		<-done
+		<-done
 	case BOtherRequire:
 		if o := OtherHandle.Load(); o != nil {
 			o.Require().True(false, "planned failed require on the other handle")
@@ -191,6 +206,14 @@ type Tracker struct {
 	Violations []string
 	MaxID      uint64
 	BadIDs     []string
+	// kept: the id strings exactly as the bodies received them (first 20000), re-read when the run is over:
+	// an id a program has kept (a map key, a log field) stays the id it was given
+	kept []keptID
+}
+
+type keptID struct {
+	s  string
+	id uint64
 }
 
 func NewTracker() *Tracker {
@@ -226,6 +249,9 @@ func (k *Tracker) Enter(t *f1testing.T) func() {
 	if id == 0 {
 		k.BadIDs = append(k.BadIDs, t.Iteration)
 	} else {
+		if len(k.kept) < 20000 {
+			k.kept = append(k.kept, keptID{t.Iteration, id})
+		}
 		k.ids[id]++
 		if k.ids[id] > 1 {
 			k.violate("iteration id %d observed by %d invocations", id, k.ids[id])
@@ -269,5 +295,12 @@ func (k *Tracker) IDsGapless() (bool, int, string) {
 func (k *Tracker) Problems() []string {
 	k.mu.Lock()
 	defer k.mu.Unlock()
-	return append([]string{}, k.Violations...)
+	out := append([]string{}, k.Violations...)
+	for _, kp := range k.kept {
+		if strconv.FormatUint(kp.id, 10) != kp.s {
+			out = append(out, fmt.Sprintf("the id string handed to iteration %d reads %q after the run: ids kept by the program changed under it", kp.id, kp.s))
+			break
+		}
+	}
+	return out
 }
